@@ -14,8 +14,11 @@ Deciding step: complete enumeration of declared finite spaces on the real
   compared with fresh objects (history independence);
 * "twin tracks": the same waypoints with both ``allow_overstep`` settings alive in one
   process, either setting created first; every object must obey its own setting;
-* every ordered pair of harness airports (lattice + real ones + an unknown code) for
-  ``Mission.gc_distance``.
+* every ordered pair of harness airports (lattice + real ones + an unknown code) x every
+  way of obtaining a ``Mission`` (constructor, ``from_toml``, ``from_query_result`` with a
+  hand-written QueryResult whose stated schedule distance is exact / +-5 % / 0 / None) for
+  ``Mission.gc_distance``, plus every flight instance of the shipped test mission database
+  read through ``Database``/``Query`` and turned into a ``Mission``.
 
 Symbolic distances are resolved against the track's *own* cumulative index (after that
 index has been checked against the reference), so 'L+ulp' is exactly one ulp beyond the
@@ -123,6 +126,12 @@ REAL_AIRPORTS = [  # code, name, lat, lon, elevation_ft (harness data: real-worl
     ('SEA', 'Seattle Tacoma International Airport', 47.447943, -122.310276, 433),
     ('SFO', 'San Francisco International Airport', 37.619806, -122.374821, 13),
     ('CDG', 'Charles de Gaulle International Airport', 49.012798, 2.55, 392),
+    ('GJT', 'Grand Junction Regional Airport', 39.126663, -108.529387, 4858),
+    ('LAS', 'Harry Reid International Airport', 36.083361, -115.151817, 2181),
+    ('MCO', 'Orlando International Airport', 28.429399490356445, -81.30899810791016, 96),
+    ('MSY', 'Louis Armstrong New Orleans International Airport', 29.993401, -90.258003, 4),
+    ('PHX', 'Phoenix Sky Harbor International Airport', 33.435302, -112.005905, 1135),
+    ('SJC', 'Norman Y. Mineta San Jose International Airport', 37.362452, -121.929188, 62),
     ('SIN', 'Singapore Changi Airport', 1.35019, 103.994003, 22),
     ('SYD', 'Sydney Kingsford Smith International Airport', -33.94609832763672, 151.177001953125, 21),
     ('NAN', 'Nadi International Airport', -17.755399703979492, 177.4429931640625, 59),
@@ -262,9 +271,15 @@ def sublattices(tier, seed):
     })  # fmt: skip
     codes = _mission_codes(tier)
     subs.append({
-        'name': 'mission origin x destination',
-        'axes': {'origin': codes, 'destination': codes},
-        'cases': [{'k': 'mission', 'o': o, 'd': d} for o in codes for d in codes],
+        'name': 'mission origin x destination x way of obtaining the Mission',
+        'axes': {'origin': codes, 'destination': codes, 'obtained_via': MISSION_VIA},
+        'cases': [{'k': 'mission', 'o': o, 'd': d, 'via': v} for o in codes for d in codes for v in MISSION_VIA],
+    })  # fmt: skip
+    rows = _db_rows()
+    subs.append({
+        'name': 'every flight instance of the shipped test mission database -> Mission.from_query_result',
+        'axes': {'flight_instance': f'all {len(rows)} rows returned by Database(oag-2019-test-subset.sqlite)(Query())'},
+        'cases': [{'k': 'dbrow', 'id': i, 'o': rows[i].origin, 'd': rows[i].destination} for i in sorted(rows)],
     })  # fmt: skip
     return subs
 
@@ -285,10 +300,11 @@ def worker_init(tier, seed):
     import pandas as pd
 
     from AEIC.missions.mission import Mission
+    from AEIC.missions.query import QueryResult
     from AEIC.trajectories.ground_track import GroundTrack
     from AEIC.types import Location
 
-    _STATE.update(GroundTrack=GroundTrack, Location=Location, Mission=Mission, t0=pd.Timestamp('2024-01-01T00:00:00Z'))
+    _STATE.update(GroundTrack=GroundTrack, Location=Location, Mission=Mission, QueryResult=QueryResult, t0=pd.Timestamp('2024-01-01T00:00:00Z'))
 
 
 def _build(case):
@@ -611,11 +627,33 @@ def _same(x, y, tol):
     return abs(x - y) <= tol
 
 
-def _gc(o, d):
-    """('ok', distance, origin (lon, lat), destination (lon, lat)) | ('refused', msg) | ('error', msg)."""
-    m = _STATE['Mission'](origin=o, destination=d, departure=_STATE['t0'], arrival=_STATE['t0'], load_factor=1.0,
-                          aircraft_type='B738')  # fmt: skip
+MISSION_VIA = ['direct', 'toml', 'query:exact', 'query:+5%', 'query:-5%', 'query:0', 'query:none']
+
+
+def _make_mission(o, d, via, ref_len_m):
+    """A Mission for o->d obtained through the named construction route. For the query routes the
+    QueryResult is written by hand; its *stated* schedule distance (km) is exact / off by 5 % / 0 /
+    absent -- the property is about the airports, not about what the schedule claims."""
+    M, t0 = _STATE['Mission'], _STATE['t0']
+    if via == 'direct':
+        return M(origin=o, destination=d, departure=t0, arrival=t0, load_factor=1.0, aircraft_type='B738')
+    if via == 'toml':
+        return M.from_toml({'flight': [{'origin': o, 'destination': d, 'departure': '2024-01-01 00:00:00',
+                                        'arrival': '2024-01-01 06:00:00', 'load_factor': 1.0, 'aircraft_type': 'B738'}]})[0]  # fmt: skip
+    km = ref_len_m / 1000.0
+    stated = {'exact': km, '+5%': 1.05 * km + 5.0, '-5%': max(0.95 * km - 5.0, 1.0), '0': 0, 'none': None}[via.split(':')[1]]
+    qr = _STATE['QueryResult'](
+        departure=t0, arrival=t0, carrier='XX', flight_number='1', origin=o, origin_country='ZZ', destination=d,
+        destination_country='ZZ', service_type='J', aircraft_type='B738', engine_type=None, distance=stated,
+        seat_capacity=180, id=1, flight_id=1,
+    )  # fmt: skip
+    return M.from_query_result(qr)
+
+
+def _gc_of(make):
+    """('ok', distance, origin (lon, lat), destination (lon, lat), Position, Position) | ('refused', msg) | ('error', msg)."""
     try:
+        m = make()
         g = m.gc_distance
         g2 = m.gc_distance
         po, pd_ = m.origin_position, m.destination_position
@@ -632,11 +670,53 @@ def _gc(o, d):
     return ('ok', g, (float(po.longitude), float(po.latitude)), (float(pd_.longitude), float(pd_.latitude)), po, pd_)
 
 
+def _gc(o, d, via='direct'):
+    if o in AIRPORTS and d in AIRPORTS:
+        L = G.dist(AIRPORTS[o][0], AIRPORTS[o][1], AIRPORTS[d][0], AIRPORTS[d][1])
+    else:
+        L = 1.0e6
+    return _gc_of(lambda: _make_mission(o, d, via, L))
+
+
+def _check_mission(what, o, d, r, reverse, out):
+    """r: forward result ('ok', ...); reverse: [(label, result)] of the reverse mission obtained in several ways."""
+    _, g, po, pd_, pos_o, pos_d = r
+    if o in AIRPORTS and d in AIRPORTS and (po != tuple(map(float, AIRPORTS[o])) or pd_ != tuple(map(float, AIRPORTS[d]))):
+        raise HarnessError(f'airport positions {o}={po} {d}={pd_} differ from the harness table {AIRPORTS.get(o)} {AIRPORTS.get(d)}')
+    L_ref = G.dist(po[0], po[1], pd_[0], pd_[1])
+    try:
+        gt = _STATE['GroundTrack'].great_circle(pos_o.location, pos_d.location)
+        L_track = float(gt.total_distance)
+    except Exception as ex:  # noqa: BLE001
+        out.append(V('internal-error', f'ground track {o}->{d}: {type(ex).__name__}: {str(ex)[:200]}'))
+        return 'error:track'
+    if not abs(L_track - L_ref) <= G.LEN_TOL:
+        out.append(V('track-length', f'ground track {o}{po}->{d}{pd_}: total_distance {L_track!r} != geodesic length {L_ref!r}'))
+    ok = math.isfinite(g) and abs(g - L_track) <= G.LEN_TOL and abs(g - L_ref) <= G.LEN_TOL
+    if not ok:
+        # defect signature: exactly what the inverse problem returns when every (lon, lat) is passed as (lat, lon)
+        swapped = G.raw_inv_dist(po[1], po[0], pd_[1], pd_[0])
+        finding = FINDING_GC if _same(g, swapped, G.LEN_TOL) else None
+        out.append(V('mission-distance', f'{what} = {g!r}; ground track {o}{po}->{d}{pd_} is {L_track!r} m long (reference {L_ref!r}); '
+                     f'inverse with latitude/longitude exchanged gives {swapped!r}', finding=finding))  # fmt: skip
+    for label, rb in reverse:
+        if rb[0] != 'ok':
+            out.append(V('mission-asymmetry', f'{what} = {g!r} but the reverse mission ({label}) gave {rb[:2]}'))
+            break
+        if (math.isfinite(g) != math.isfinite(rb[1])) or (math.isfinite(g) and not abs(g - rb[1]) <= G.LEN_TOL):
+            out.append(V('mission-asymmetry', f'{what} = {g!r} but {d}->{o} ({label}) gives {rb[1]!r}'))
+            break
+    if not ok:
+        return 'mission:distance-non-finite' if not math.isfinite(g) else 'mission:distance-mismatch'
+    return 'mission:zero-length' if L_ref == 0.0 else 'mission:ok'
+
+
 def _run_mission(case):
     out = []
     o, d = case['o'], case['d']
-    what = f'Mission({o}->{d}).gc_distance'
-    r = _gc(o, d)
+    via = case.get('via', 'direct')
+    what = f'Mission({o}->{d}, obtained via {via}).gc_distance'
+    r = _gc(o, d, via)
     unknown = UNKNOWN_CODE in (o, d)
     if r[0] == 'error':
         return {'outcome': 'error:mission', 'nontrivial': True, 'violations': [V('internal-error', f'{what}: {r[1]}')]}
@@ -647,37 +727,54 @@ def _run_mission(case):
     if r[0] == 'refused':
         return {'outcome': 'mission:refused', 'nontrivial': True,
                 'violations': [V('refused-in-range', f'{what}: refused ({r[1]}) for two known airports')]}  # fmt: skip
-    _, g, po, pd_, pos_o, pos_d = r
-    if po != tuple(map(float, AIRPORTS[o])) or pd_ != tuple(map(float, AIRPORTS[d])):
-        raise HarnessError(f'airport positions {o}={po} {d}={pd_} differ from the harness table {AIRPORTS[o]} {AIRPORTS[d]}')
-    L_ref = G.dist(po[0], po[1], pd_[0], pd_[1])
-    try:
-        gt = _STATE['GroundTrack'].great_circle(pos_o.location, pos_d.location)
-        L_track = float(gt.total_distance)
-    except Exception as ex:  # noqa: BLE001
-        return {'outcome': 'error:track', 'nontrivial': True,
-                'violations': [V('internal-error', f'ground track {o}->{d}: {type(ex).__name__}: {str(ex)[:200]}')]}  # fmt: skip
-    if not abs(L_track - L_ref) <= G.LEN_TOL:
-        out.append(V('track-length', f'ground track {o}{po}->{d}{pd_}: total_distance {L_track!r} != geodesic length {L_ref!r}'))
-    ok = math.isfinite(g) and abs(g - L_track) <= G.LEN_TOL and abs(g - L_ref) <= G.LEN_TOL
-    if not ok:
-        # defect signature: exactly what the inverse problem returns when every (lon, lat) is passed as (lat, lon)
-        swapped = G.raw_inv_dist(po[1], po[0], pd_[1], pd_[0])
-        finding = FINDING_GC if _same(g, swapped, G.LEN_TOL) else None
-        out.append(V('mission-distance', f'{what} = {g!r}; ground track {o}{po}->{d}{pd_} is {L_track!r} m long (reference {L_ref!r}); '
-                     f'inverse with latitude/longitude exchanged gives {swapped!r}', finding=finding))  # fmt: skip
-    rb = _gc(d, o)
-    if rb[0] != 'ok':
-        out.append(V('mission-asymmetry', f'{what} = {g!r} but the reverse mission gave {rb[:2]}'))
-    elif math.isfinite(g) and math.isfinite(rb[1]) and not abs(g - rb[1]) <= G.LEN_TOL:
-        out.append(V('mission-asymmetry', f'{what} = {g!r} but {d}->{o} gives {rb[1]!r}'))
-    elif math.isfinite(g) != math.isfinite(rb[1]):
-        out.append(V('mission-asymmetry', f'{what} = {g!r} but {d}->{o} gives {rb[1]!r}'))
-    if not ok:
-        oc = 'mission:distance-non-finite' if not math.isfinite(g) else 'mission:distance-mismatch'
-    else:
-        oc = 'mission:zero-length' if L_ref == 0.0 else 'mission:ok'
-    return {'outcome': oc, 'nontrivial': True, 'violations': out, 'fp': fingerprint(['mission', po, pd_])}
+    reverse = [(via, _gc(d, o, via))] + ([('direct', _gc(d, o, 'direct'))] if via != 'direct' else [])
+    oc = _check_mission(what, o, d, r, reverse, out)
+    tag = '' if via == 'direct' else ':' + via.split(':')[0]
+    return {'outcome': oc + tag, 'nontrivial': True, 'violations': out, 'fp': fingerprint(['mission', r[2], r[3], via])}
+
+
+def _db_rows():
+    """Every flight instance of the repository's shipped test mission database, read through the real
+    Database / Query API (1 197 rows); cached per process."""
+    if 'rows' not in _STATE:
+        from vf import env
+
+        if 'Mission' not in _STATE:
+            worker_init('quick', 0)
+        from AEIC.missions import Database, Query
+
+        path = env.TEST_DATA / 'missions' / 'oag-2019-test-subset.sqlite'
+        with Database(str(path)) as db:
+            rows = list(db(Query()))
+        _STATE['rows'] = {int(r.id): r for r in rows}
+        if len(_STATE['rows']) != len(rows):
+            raise HarnessError('flight instance ids in the test mission database are not unique')
+    return _STATE['rows']
+
+
+def _run_dbrow(case):
+    import dataclasses
+
+    out = []
+    qr = _db_rows().get(int(case['id']))
+    if qr is None or (qr.origin, qr.destination) != (case['o'], case['d']):
+        raise HarnessError(f'flight instance {case} not found in the test mission database')
+    o, d = qr.origin, qr.destination
+    M = _STATE['Mission']
+    what = f'Mission.from_query_result(flight instance {qr.id} {o}->{d}, stated distance {qr.distance!r} km).gc_distance'
+    r = _gc_of(lambda: M.from_query_result(qr))
+    if r[0] == 'error':
+        return {'outcome': 'error:mission', 'nontrivial': True, 'violations': [V('internal-error', f'{what}: {r[1]}')]}
+    if r[0] == 'refused' and (o not in AIRPORTS or d not in AIRPORTS):
+        # most airports of the world-wide schedule are not in the (reduced) airport table
+        return {'outcome': 'dbrow:refused-unknown-airport', 'nontrivial': False, 'violations': out}
+    if r[0] == 'refused':
+        return {'outcome': 'dbrow:refused', 'nontrivial': True,
+                'violations': [V('refused-in-range', f'{what}: refused ({r[1]}) for two known airports')]}  # fmt: skip
+    back = dataclasses.replace(qr, origin=d, destination=o, origin_country=qr.destination_country, destination_country=qr.origin_country)
+    reverse = [('from_query_result of the return flight', _gc_of(lambda: M.from_query_result(back))), ('direct', _gc(d, o, 'direct'))]
+    oc = _check_mission(what, o, d, r, reverse, out)
+    return {'outcome': oc.replace('mission:', 'dbrow:'), 'nontrivial': True, 'violations': out}
 
 
 def _run_twin(case):
@@ -707,7 +804,7 @@ def _run_twin(case):
     return {'outcome': 'twin:consistent' if not out else 'twin:inconsistent', 'nontrivial': npts > 0, 'violations': out}
 
 
-_RUN = {'loc': _run_loc, 'step': _run_step, 'seq': _run_seq, 'twin': _run_twin, 'mission': _run_mission}
+_RUN = {'loc': _run_loc, 'step': _run_step, 'seq': _run_seq, 'twin': _run_twin, 'mission': _run_mission, 'dbrow': _run_dbrow}
 
 
 def run_case(case):
@@ -721,8 +818,8 @@ def observe(case):
     """Raw observation for the runner's order-independence pass."""
     k = case['k']
     if k == 'mission':
-        return repr(_gc(case['o'], case['d'])[:2])
-    if k in ('seq', 'twin'):
+        return repr(_gc(case['o'], case['d'], case.get('via', 'direct'))[:2])
+    if k in ('seq', 'twin', 'dbrow'):
         return None
     gt = _build(case)
     sym = _symbols([float(gt.waypoint_distance(i)) for i in range(len(gt))])
@@ -737,7 +834,7 @@ def _warmup_cases(case, other_first):
     if case['k'] == 'mission':
         o, d = case['o'], case['d']
         pre = [(d, o), (o, o), (d, d)] if other_first else [(o, d)]
-        return [{'k': 'mission', 'o': a, 'd': b} for a, b in pre]
+        return [{'k': 'mission', 'o': a, 'd': b, 'via': v} for a, b in pre for v in ('direct', case.get('via', 'direct'))]
     if 'wp' not in case or case['k'] == 'twin':
         return []
     ov = int(case.get('ov', 0))
